@@ -45,6 +45,26 @@ static int push_start;
 
 static parse_node_t *branch_list[3];
 
+/* The switch instructions generated into A_INITIALIZER. Their operands and
+ * tables hold absolute addresses, and that code is moved behind the functions
+ * when the program is finished (i_generate___INIT()): they are relocated then.
+ * 'addr' is the offset of the operands in the block, 'patch' the index of the
+ * entry in A_PATCH that names this switch (string switches), or -1. */
+typedef struct { int addr; int patch; } init_switch_t;
+static init_switch_t *init_switches;
+static int num_init_switches, max_init_switches;
+
+static void note_init_switch (int addr, int patch) {
+  if (num_init_switches == max_init_switches)
+    {
+      max_init_switches = max_init_switches ? max_init_switches * 2 : 8;
+      init_switches = RESIZE (init_switches, max_init_switches, init_switch_t, TAG_COMPILER, "note_init_switch");
+    }
+  init_switches[num_init_switches].addr = addr;
+  init_switches[num_init_switches].patch = patch;
+  num_init_switches++;
+}
+
 /**
  *  @brief Insert a double precision floating point number into the program code.
  *  In original LPMud and MudOS, this was a single precision float.
@@ -698,11 +718,18 @@ void i_generate_node (parse_node_t * expr) {
         ins_short (0);
         /* build table */
         upd_short (addr, (short)CURRENT_PROGRAM_SIZE);
-        if (expr->kind == NODE_SWITCH_STRINGS)
-          {
-            short sw = (short) (addr - 2);
-            add_to_mem_block (A_PATCH, (char *) &sw, sizeof sw);
-          }
+        {
+          int patch = -1;
+
+          if (expr->kind == NODE_SWITCH_STRINGS)
+            {
+              short sw = (short) (addr - 2);
+              patch = (int)(mem_block[A_PATCH].current_size / sizeof sw);
+              add_to_mem_block (A_PATCH, (char *) &sw, sizeof sw);
+            }
+          if (current_block == A_INITIALIZER)
+            note_init_switch (addr, patch);
+        }
         if (expr->kind == NODE_SWITCH_DIRECT)
           {
             parse_node_t *pn = expr->v.expr;
@@ -1000,12 +1027,73 @@ i_generate_inherited_init_call (int index, int f)
   ins_byte (F_POP_VALUE);
 }
 
+static void relocate_short (char *where, size_t base) {
+  unsigned short a;
+
+  COPY_SHORT (&a, where);
+  a = (unsigned short)(a + base);
+  COPY_SHORT (where, &a);
+}
+
 void
 i_generate___INIT ()
 {
+  size_t base = mem_block[A_PROGRAM].current_size;	/* where the initializers go */
+  char *code;
+  int i;
+
   add_to_mem_block (A_PROGRAM, (char *) mem_block[A_INITIALIZER].block,
                     mem_block[A_INITIALIZER].current_size);
   prog_code = mem_block[A_PROGRAM].block + mem_block[A_PROGRAM].current_size;
+
+  /* the switches in there (in function literals) were generated for a block
+   * that started at address 0 */
+  code = mem_block[A_PROGRAM].block + base;
+  for (i = 0; i < num_init_switches; i++)
+    {
+      char *sw = code + init_switches[i].addr;	/* table, end of table, default */
+      unsigned short table, end_table;
+      unsigned char kind = (unsigned char) sw[-1];
+
+      COPY_SHORT (&table, sw);
+      COPY_SHORT (&end_table, sw + 2);
+      if (kind == 0xfe)
+        {
+          /* lookup table: addresses, then the lowest label in 4 bytes */
+          char *p;
+          for (p = code + table; p + 4 < code + end_table; p += sizeof (short))
+            {
+              unsigned short a;
+              COPY_SHORT (&a, p);
+              if (a)		/* 0: no such case */
+                relocate_short (p, base);
+            }
+        }
+      else
+        {
+          /* (label, address) pairs; 0 and 1 mark the two ends of a range */
+          char *p;
+          for (p = code + table; p < code + end_table; p += sizeof (intptr_t) + sizeof (short))
+            {
+              unsigned short a;
+              COPY_SHORT (&a, p + sizeof (intptr_t));
+              if (a > 1)
+                relocate_short (p + sizeof (intptr_t), base);
+            }
+        }
+      relocate_short (sw, base);
+      relocate_short (sw + 2, base);
+      relocate_short (sw + 4, base);
+      if (init_switches[i].patch >= 0)
+        relocate_short (mem_block[A_PATCH].block + init_switches[i].patch * sizeof (short), base);
+    }
+  num_init_switches = 0;
+  if (init_switches)
+    {
+      FREE (init_switches);
+      init_switches = 0;
+      max_init_switches = 0;
+    }
 }
 
 void
@@ -1114,6 +1202,7 @@ i_initialize_parser ()
 
   line_being_generated = 0;
   last_size_generated = 0;
+  num_init_switches = 0;
 }
 
 void
